@@ -169,7 +169,15 @@ def extract() -> dict:
     if HERE not in sys.path:
         sys.path.insert(0, HERE)
     import wpath
-    wp = wpath.observe_prog()
+    import linesched
+    try:
+        # (a writer that blocks on something the harness does not stub -- another hand-off than the queue -- must not hang
+        # the translator of every property: the program is then recorded as unobservable, which breaks C15's obligation only)
+        with linesched.deadline(40):
+            wp = wpath.observe_prog()
+    except BaseException as e:  # noqa
+        wp = {k: [] for k in ("wOk", "wFail", "lPrefix", "lOk", "lSoft", "lHard")}
+        wp["notes"] = [f"write-path program could not be observed: {type(e).__name__}: {e}"]
     from diameter.node.node import Node
     ra = route_answer_shape(Node.route_answer)
     out = {
